@@ -98,3 +98,23 @@ def fingerprint(t: torch.Tensor):
 
 def td_fingerprint(td):
     return {str(k): fingerprint(td[k]) for k in sorted(td.keys(), key=str) if isinstance(td[k], torch.Tensor)}
+
+
+def ulp32(x: float) -> float:
+    """spacing of float32 numbers at magnitude x"""
+    import math
+
+    x = abs(float(x))
+    return 2.0 ** (math.floor(math.log2(x)) - 23) if x > 0 and math.isfinite(x) else 2.0 ** -149
+
+
+def logit_noise(rec, k=8.0):
+    """float32 conditioning of a recorded decode: k ulp of the largest finite raw logit seen (log-probs computed from
+    logits of magnitude 5e3 - unscaled CVRPTW - differ by ~1e-3 between batch layouts on correct code)"""
+    m = 0.0
+    for st in rec.steps:
+        lg = st["logits"]
+        f = lg[torch.isfinite(lg)]
+        if f.numel():
+            m = max(m, float(f.abs().max()))
+    return k * ulp32(m) if m > 0 else 0.0
